@@ -25,6 +25,16 @@
    ExecuteRunning is only run by the outermost execution (m_ExecutionDepth == 0).  println of
    a waitthread result shows an unresolved return-value pointer when the callee was killed.
 
+   Also as written: `waitthread label` of a thread is served by Listener::WaitCreateReturnThread,
+   i.e. the callee runs in a NEW ScriptClass (`thread label` stays in the caller's class); the
+   caller registers on the callee under the empty name and is put on the timer with delay 0
+   when the callee dies (StoppedWaitFor with the empty name: StartTiming), so it proceeds in
+   the next run of the timer loop; ScriptThread::StoppedNotify deletes the thread: a waitthread
+   caller that is deleted (endon, removal of what it waits for - not possible while it waits
+   for a thread - or a kill cascade) takes its callee with it; `level.o = spawn Listener`
+   into an occupied variable leaves the old object alive and unreachable; a statement applied
+   to a NULL listener is skipped with a warning.
+
    Abstracted.  The enumeration order of con::set over NAMES (only used by UnregisterAll and
    CancelWaitingAll) is the fixed order c, b, a, "" instead of the hash order; the event names
    are the three script names a, b, c and the empty name (const_str 0, used by waitthread);
@@ -129,10 +139,13 @@ Inductive op :=
 | OAdvance (dt : N)           (* the host's clock moves *)
 | OExecute.                   (* ScriptContext::Execute() *)
 
+(* the size of an instruction bounds the interpreter steps it causes in its own thread
+   (a started thread weighs 2 + the size of its program) *)
 Fixpoint isize (i : instr) : nat :=
   match i with
   | IThread p | IWaitThread p =>
-      S ((fix ps (l : list instr) : nat := match l with [] => O | j :: l' => (isize j + ps l')%nat end) p)
+      (3 + (fix ps (l : list instr) : nat := match l with [] => O | j :: l' => (isize j + ps l')%nat end) p)%nat
+  | IWaitTillAny _ ns => S (length ns)
   | _ => 1%nat
   end.
 Fixpoint psize (p : list instr) : nat :=
@@ -535,7 +548,11 @@ Section Interp.
               + weight_upto s k)%nat
     end.
   Definition weight (s : sh) : nat := weight_upto s (N.to_nat (ntid s)).
-  Definition fuel_for (s : sh) (extra : nat) : nat := (40 * (weight s + extra + 2))%nat.
+  (* enough for every history met so far (the driver reports an exhausted fuel as "hang"):
+     nesting costs a bounded number of steps per executed instruction or deleted thread, a
+     list of threads is walked with one step per element *)
+  Definition fuel_for (s : sh) (extra : nat) : nat :=
+    (40 * (weight s + extra + 2) + 8 * N.to_nat (ntid s))%nat.
 
   Definition step (x : T) (s : sh) (o : op) : option (T * sh * obs) :=
     let s := set_log s [] in
